@@ -61,6 +61,11 @@ func runC13(c *Ctx) {
 			// the closure runs where it is passed/called: locate the literal in the enclosing body
 			outer := outermostLit(cs.Caller, cs.Call)
 			node = outer
+			// a literal handed to a bracket helper (`withSharedLock(func() error {…})`: acquire, deferred
+			// release, call of its function parameter) runs inside that helper's bracket
+			if outer != nil && w.litRunsInBracketHelper(cs.Caller, outer) {
+				return true, "inside the bracket of the helper the literal is handed to"
+			}
 		}
 		loc, ok := g.Locate(node)
 		if !ok {
